@@ -250,6 +250,9 @@ def r04_1_other_components(chk):
     attr = ix.get_class("Attribute")
     # set component
     mk = eset.lookup("_make_set_component_bytes")
+    if mk is None:
+        raise AnalysisError("EFLRSet._make_set_component_bytes not found (the set component is built elsewhere): the "
+                            "set-component obligations cannot be evaluated on this tree")
     chk.consult(mk)
     for named in (True, False):
         st = State()
